@@ -24,7 +24,7 @@ RULE = ("Generated: (pinned) a scaled asset with min_scale = max_scale = s over 
         "the flat problem, external dispatch column = sum of the inner assets' dispatch at that node. "
         "Non-trivial: (pinned/free) the scaled asset has non-zero dispatch and s/S != 1 or fixed cost != 0; "
         "(structured) an internal node carries flow. Distinct = distinct spec hash.")
-ASSUMPTIONS = ["the wrapper's own window governs the fixed cost only; dispatch follows the base asset's window (documented for fix costs)",
+ASSUMPTIONS = ["a scaled asset is active (dispatch and fixed cost) within its own documented start / end, intersected with the base asset's window (order book bases carry no window of their own: scaled order books are generated without window)",
                "LP bases only (no MIP storage options inside a scaled asset)"]
 
 
@@ -71,6 +71,8 @@ def _scaled(draw, free):
             base[k] = 0.0 if k == "min_cap" else 1.0 / cx.dt0
     if base.get("min_take") or base.get("max_take"):
         base["start"] = base["end"] = None
+    if base["type"] == "orderbook":
+        a["start"] = a["end"] = None       # an order book has no window of its own to compare with
     if free:
         a["min_scale"] = a["max_scale"] * draw(st.sampled_from([0.0, 0.0, 0.25, 0.5]))
     else:
@@ -151,6 +153,11 @@ def plain_version(spec, s):
         if a["type"] == "scaled":
             b = scaled_base(a["base"], s / a["norm_scale"])
             b["name"] = a["name"]
+            # the scaled asset is active within its own window (documented start / end) and that of its base asset
+            if a.get("start") is not None and b["type"] != "orderbook":
+                b["start"] = a["start"] if b.get("start") is None else max(b["start"], a["start"])
+            if a.get("end") is not None and b["type"] != "orderbook":
+                b["end"] = a["end"] if b.get("end") is None else min(b["end"], a["end"])
             s2["assets"][i] = b
             fixed = s * a["fix_costs"] * active_dt(spec["grid"], a)
     return s2, fixed
